@@ -156,10 +156,22 @@ def t1(ck: Check) -> None:
         if isinstance(r, ast.Return) and isinstance(r.value, ast.Tuple):
             t = p2v.facts(p2v.cfgn(r))
             pre = None
+            pname = p2v.f.params()[0]
             for test, pol, b in t:
                 if pol and isinstance(test, ast.Call) and callee_name(test) == "startswith":
                     pre = test.args[0].value
+                # `place[:3] == "b1_"` (the slice possibly held in a local) says the same as place.startswith("b1_")
+                if pol and isinstance(test, ast.Compare) and len(test.ops) == 1 and isinstance(test.ops[0], ast.Eq) \
+                        and isinstance(test.comparators[0], ast.Constant) and isinstance(test.comparators[0].value, str):
+                    tn_ = p2v.cfg.nodes[next(iter(p2v.cfg.g.predecessors(b.id)))]
+                    lhs = p2v.deref(test.left, tn_) if isinstance(test.left, ast.Name) else test.left
+                    k_ = test.comparators[0].value
+                    if isinstance(lhs, ast.Subscript) and text(lhs.value) == pname and isinstance(lhs.slice, ast.Slice) and lhs.slice.lower is None \
+                            and isinstance(lhs.slice.upper, ast.Constant) and lhs.slice.upper.value == len(k_):
+                        pre = k_
             sl = r.value.elts[0]
+            if isinstance(sl, ast.Name):
+                sl = p2v.deref(sl, p2v.cfgn(r))       # the stripped name held in a local
             if pre is None or not (isinstance(sl, ast.Subscript) and isinstance(sl.slice, ast.Slice)
                                    and isinstance(sl.slice.lower, ast.Constant) and sl.slice.lower.value == len(pre)):
                 probs.append(f"decoder strips {text(sl)} for prefix {pre!r}")
